@@ -62,6 +62,12 @@ def _in_fresh_process(fn, limit):
             # (faulthandler's watchdog thread does not survive fork)
             import signal
             signal.signal(signal.SIGALRM, signal.SIG_DFL)
+            try:
+                # say where it was stuck, then die of the signal
+                faulthandler.register(signal.SIGALRM, all_threads=True,
+                                      chain=True)
+            except Exception:
+                pass
             signal.alarm(int(limit))
             try:
                 out = fn()
@@ -93,7 +99,7 @@ def _in_fresh_process(fn, limit):
 def _job(args):
     prop, profile, params, seed = args
     from psim import plans
-    faulthandler.dump_traceback_later(300, exit=True)
+    faulthandler.dump_traceback_later(640, exit=True)
 
     def body():
         fn = plans.profile_fn(profile)
@@ -102,7 +108,10 @@ def _job(args):
         res['wall'] = time.time() - t0
         return res
     try:
-        res = _in_fresh_process(body, 280)
+        res = _in_fresh_process(body, 600)
+        if res.get('harness_error'):
+            res['harness_error'] += ' [profile=%s params=%r seed=%d]' % (
+                profile, params, seed)
         res['seed'] = seed
         res['profile'] = profile
         return res
@@ -244,7 +253,7 @@ def main(argv=None):
                     continue
                 remaining = 1
             try:
-                res = fut.result(timeout=max(remaining, 1) + 300)
+                res = fut.result(timeout=max(remaining, 1) + 660)
             except FutTimeout:
                 harness_errors.append('worker timeout')
                 break
